@@ -147,5 +147,6 @@ LogDomsThorough == LogDomsQuick \cup {
   [m1 |-> <<1, 1>>, e1 |-> 0, m2 |-> <<1, 1>>, e2 |-> 64, neg |-> FALSE],
   [m1 |-> <<1, 1>>, e1 |-> -33, m2 |-> <<5, 4>>, e2 |-> -31, neg |-> FALSE],
   [m1 |-> <<7, 4>>, e1 |-> 3, m2 |-> <<5, 4>>, e2 |-> 4, neg |-> TRUE] }
-LimitsDef == {<<0, 0>>, <<-2, 3>>, <<1, 1>>, <<4, 2>>, <<-6, -5>>, <<2, 12>>}
+\* (limits with one end exactly 0 are limits, not the "no limits" value <<0,0>>)
+LimitsDef == {<<0, 0>>, <<-2, 3>>, <<1, 1>>, <<4, 2>>, <<-6, -5>>, <<2, 12>>, <<-3, 0>>, <<0, 2>>}
 =============================================================================
